@@ -1,6 +1,7 @@
 //! Scenarios: per-property plan generation, sweeps and oracles.
 
 pub mod c09;
+pub mod c10;
 pub mod c11;
 pub mod c16;
 pub mod c17;
@@ -127,6 +128,7 @@ pub trait Scenario: Sync {
 pub fn scenario(name: &str) -> Option<Box<dyn Scenario>> {
     match name {
         "C09" => Some(Box::new(c09::C09)),
+        "C10" => Some(Box::new(c10::C10)),
         "C11" => Some(Box::new(c11::C11)),
         "C16" => Some(Box::new(c16::C16)),
         "C17" => Some(Box::new(c17::C17)),
@@ -690,5 +692,18 @@ pub fn pipelined_follower(obs: &crate::client::ConnObs, k: usize) -> bool {
     match &obs.by_req[k - 1] {
         Some(r) => start < r.seq_done,
         None => true,
+    }
+}
+
+/// If the response stream ended in the middle of a message, the index of the
+/// request whose response was cut short.  hyper 1.6's HTTP/1 dispatcher calls
+/// shutdown on the socket without waiting for its write buffer to drain when
+/// the connection is about to be closed (request body left partly unread,
+/// request trailers, ...) - under back-pressure the tail of the last response
+/// is lost.
+pub fn truncated_at(obs: &crate::client::ConnObs) -> Option<usize> {
+    match &obs.parse_err {
+        Some(crate::http1::ParseError::Truncated(_)) => Some(obs.finals.len()),
+        _ => None,
     }
 }
